@@ -56,6 +56,9 @@ type stats struct {
 	RunIndex   map[string]any   `json:"-"`
 }
 
+// watchdogLimit: see the watchdog in TestRun.
+var watchdogLimit = 60 * time.Second
+
 func TestRun(t *testing.T) {
 	if *fDriver == "" {
 		t.Skip("no -driver")
@@ -95,6 +98,22 @@ func TestRun(t *testing.T) {
 		run++
 		var x *sched.Exec
 		var used json.RawMessage
+		// Watchdog (real time, outside the bubble): an execution takes milliseconds; one that is still
+		// going after a minute has a goroutine spinning on the CPU without ever reaching a hook (the
+		// bubble cannot settle). All stacks are dumped and the process ends; the pipeline reads the
+		// dump: a spinning goroutine whose innermost non-runtime frame is library code is an observation.
+		done := make(chan struct{})
+		go func(run int) {
+			select {
+			case <-done:
+			case <-time.After(watchdogLimit):
+				buf := make([]byte, 1<<22)
+				n := runtime.Stack(buf, true)
+				fmt.Fprintf(os.Stderr, "fatal error: livelock: execution %d still running after %v\n\n%s\n", run, watchdogLimit, buf[:n])
+				os.Exit(3)
+			}
+		}(run)
+		defer close(done)
 		func() {
 			defer func() {
 				if r := recover(); r != nil {
